@@ -186,6 +186,13 @@ func (g *SessionManager) selectSession(msg interface{}) getty.Session {
 
 func (g *SessionManager) getXid(msg interface{}) string {
 	var xid string
+	// the remoting layer hands over the whole rpc message, the xid is in its body
+	if rpcMessage, ok := msg.(message.RpcMessage); ok {
+		msg = rpcMessage.Body
+	}
+	if msg == nil {
+		return xid
+	}
 	if tmpMsg, ok := msg.(message.AbstractGlobalEndRequest); ok {
 		xid = tmpMsg.Xid
 	} else if tmpMsg, ok := msg.(message.GlobalBeginRequest); ok {
